@@ -46,7 +46,7 @@ def make_field(kind, N, P, seed):
     elif kind == 'nrz':
         bits = np.array(WORD[:nslots], dtype=float)
         lv = np.where(bits > 0, 1.0, 0.3)             # finite extinction: no sample is exactly zero
-        x = _circ_gauss_filter(np.repeat(lv, SPS).astype(complex), 2.0)
+        x = _circ_gauss_filter(np.resize(np.repeat(lv, SPS), N).astype(complex), 2.0)   # np.resize: cyclic fill when SPS does not divide N
         x = x.real.astype(complex)
     elif kind == 'rand':
         rs = np.random.RandomState((int(seed) * 1000003 + N) % (2 ** 31 - 1))
